@@ -190,6 +190,8 @@ impl<T: RealNumber + Sum, D: Distance<Vec<T>, T>> DBSCAN<T, D> {
                     }
 
                     while !neighbors.is_empty() {
+                        #[cfg(feature = "verif")]
+                        crate::verif::note_max("dbscan.stack", neighbors.len() as u64);
                         let neighbor = neighbors.pop().unwrap();
                         let index = neighbor.0;
 
